@@ -569,4 +569,19 @@ theorem drv_bfv_encrypt_decrypt_prng_sp : type_of% @HC.drv_bfv_encrypt_decrypt_p
 theorem drv_bgv_encrypt_decrypt_prng_sk : type_of% @HC.drv_bgv_encrypt_decrypt_prng_sk := @HC.drv_bgv_encrypt_decrypt_prng_sk
 theorem drv_ckks_encrypt_decrypt_prng_pk : type_of% @HC.drv_ckks_encrypt_decrypt_prng_pk := @HC.drv_ckks_encrypt_decrypt_prng_pk
 
+/-- the model's generator-level function IS the tape-level function on the tape the generators deliver -/
+theorem encryptZeroAsymPrng_eq_tape : type_of% @HC.encryptZeroAsymPrng_eq_tape := @HC.encryptZeroAsymPrng_eq_tape
+
+/-- WHATEVER the model's generator-level public-key encryption of zero (`encryptZeroAsymPrng`) returns at the head of the chain is a fresh
+    encryption of zero with ‖ν‖∞ ≤ 21(2N+1) — every generator state, byte-valued XOF, integer sampler within its contract -/
+theorem encryptZeroAsymPrng_fresh : type_of% @HC.encryptZeroAsymPrng_fresh := @HC.encryptZeroAsymPrng_fresh
+
+/-- … the generator-level secret-key encryption of zero (`encryptZeroSymPrng`): fresh with ‖ν‖∞ ≤ 21 at every level, either seed flag;
+    the returned public seed expands to the mask, which is polynomial 1 when the seed is saved -/
+theorem encryptZeroSymPrng_fresh : type_of% @HC.encryptZeroSymPrng_fresh := @HC.encryptZeroSymPrng_fresh
+
+/-- THE KEY MATERIAL FROM THE GENERATORS: ternary draw ↦ secret (stored form = `genSecretKey` of the draw), `symCore` draws ↦ public key;
+    together a `DrvCtx` -/
+theorem drvCtx_of_prng : type_of% @HC.drvCtx_of_prng := @HC.drvCtx_of_prng
+
 end HC.C01
